@@ -5,10 +5,12 @@
 package taskctl
 
 //@ func NewScheduler
+//@   safety
 //@   ensures [fresh] res != nil && fresh(res) && res.taskRunner == r
 //@   modifies nothing
 
 //@ func (*Scheduler).OnStageChange
+//@   safety
 //@   requires [nonnil] s != nil
 //@   modifies Scheduler.onStageChange@[s]
 
@@ -22,10 +24,12 @@ package taskctl
 //@   modifies nothing
 
 //@ func (*Scheduler).Finish
+//@   safety
 //@   requires [nonnil] s != nil
 //@   modifies nothing
 
 //@ func (*Scheduler).Canceled
+//@   safety
 //@   requires [nonnil] s != nil
 //@   ensures [flag] res <==> s.cancelled == 1
 //@   modifies nothing
@@ -36,9 +40,11 @@ package taskctl
 //@ ghost $selfCancel scalar Bool
 
 //@ func (*Scheduler).isDone
+//@   safety
 //@   requires [nonnil] s != nil
 //@   modifies nothing
 //@ func (*Scheduler).notifyStageChange
+//@   safety
 //@   requires [nonnil] s != nil
 //@   modifies nothing
 //@ func checkStageCondition
@@ -50,6 +56,7 @@ package taskctl
 //@ func (*Scheduler).Schedule$1$1
 //@   modifies scheduler.Stage.End, $wgTokens, $clock
 //@ func (*Scheduler).Schedule$1
+//@   safety
 //@   requires [nonnil] s != nil
 //@   assumes  [stage] stage != nil
 //@   ensures  [C08.stageVerdict] (stage.Status == scheduler.StatusDone || stage.Status == scheduler.StatusError) && (stage.Status == scheduler.StatusError ==> !stage.AllowFailure && lastErr != nil)
@@ -92,6 +99,7 @@ package taskctl
 //@   loop 1 invariant [bad] forall k :: 0 <= k && k <= $i && depBad(dep(p, stage, k)) ==> !ready && stage.Status == scheduler.StatusCanceled
 
 //@ func (*Scheduler).Cancel
+//@   safety
 //@   requires [nonnil] s != nil
 //@   modifies Scheduler.cancelled@[s]
 //@   at call Cancel#1: assert [C04.flagFirst] s.cancelled == 1
@@ -111,6 +119,7 @@ package taskctl
 //@   trusted runs the command through mvdan/sh and os/exec (C20 territory): no access to task state
 //@   modifies nothing
 //@ func (*TaskRunner).notifyTaskChange
+//@   safety
 //@   requires [nonnil] r != nil
 //@   modifies nothing
 //@ func (*TaskRunner).execute
